@@ -1,20 +1,25 @@
 CONSTANTS
   Nodes = {0, 1, 2}
-  Bases = {11}
+  Bases = {10, 11}
   Gens = {TRUE, FALSE}
-  VNs = {3, 9}
+  VNs = {9}
   MaxT = 5
-  MaxVotes = 3
-  MaxOdd = 1
-  MaxBlocks = 3
+  VoteSets = {{0, 1, 2}}
+  Proposers = {0}
+  Crafters = {1}
+  Laggers = {1, 2}
+  MaxVotes = 2
+  MaxOdd = 0
+  MaxBlocks = 4
   MaxRestarts = 1
-  MaxPersists = 1
-  MaxTicks = 2
-  MaxCraft = 1
-  MaxForce = 1
-  MaxLag = 1
-  MaxProbes = 1
-  ExportOn = FALSE
+  MaxPersists = 0
+  MaxTicks = 1
+  MaxCraft = 0
+  MaxForce = 0
+  MaxLag = 2
+  MaxProbes = 0
+  MaxReorg = 1
+  ExportOn = TRUE
   SampleMod = 40
 INIT Init
 NEXT Next
